@@ -88,7 +88,7 @@ MUTANTS = [
      "C19-R7"),
     ("unit vectors in single precision (seed C19c)", "AegeanTools/cluster.py",
      "    X = np.hstack([x[:, None], y[:, None], z[:, None]])",
-     "    X = np.hstack([x[:, None], y[:, None], z[:, None]]).astype(np.float32)", "C19-R7"),
+     "    X = np.hstack([x[:, None], y[:, None], z[:, None]]).astype(np.float32)", "C19-R8"),
 ]
 TWINS = [
     ("key via reverse", "AegeanTools/cluster.py",
@@ -352,10 +352,10 @@ def run(ctx):
                                     "cluster.norm_dist", "cluster.sky_dist"},
                     kinds={"call"}, what="unit contracts in cluster.py",
                     floor=None)
-    # ---------------------------------------------------------------- R7
+    # ---------------------------------------------------------------- R8
     from .. import precision
     precision.rule(
-        ctx, prog, "C19-R7",
+        ctx, prog, "C19-R8",
         [lambda sh: sh.startswith("cluster.regroup") or sh in (
             "cluster.sky_dist", "cluster.norm_dist",
             "cluster.pairwise_ellpitical_binary"),
